@@ -4,6 +4,7 @@ import (
 	"fmt"
 	"math/rand"
 	"os"
+	"path/filepath"
 	"sort"
 	"strconv"
 	"strings"
@@ -38,6 +39,8 @@ const (
 	keyNotReplayed = "entry-missing-after-replay"
 	keyGap         = "entry-lost-flush-between-memdb-lookup-and-writer-registration"
 	keyNoName      = "entry-unresolvable-by-name-after-replay"
+	// a flush round went on (data file, acknowledgement) after its index flush had failed
+	keyAfterIdxErr = "data-flushed-after-failed-index-flush"
 )
 
 // ---------------------------------------------------------------- shadow of the dictionaries
@@ -98,7 +101,10 @@ func (s *shadow) nameFate(d *sdict, x string) string {
 }
 
 // flushIndex mirrors shard.FlushIndex and classifies index entries flushed ahead of their names.
-func (s *shadow) flushIndex() {
+func (s *shadow) flushIndex() { s.indexStep(false) }
+
+// indexStep(true) = the index flush failed right after PrepareFlush: the maps are swapped, nothing is durable.
+func (s *shadow) indexStep(prepareOnly bool) {
 	if s.index.immNil || (s.swapOnEmpty && len(s.index.imm) == 0) {
 		for p := range s.index.mut {
 			m := strings.SplitN(p, ".", 2)[0]
@@ -114,7 +120,9 @@ func (s *shadow) flushIndex() {
 		}
 	}
 	s.index.prepare(s.swapOnEmpty)
-	s.index.flush()
+	if !prepareOnly {
+		s.index.flush()
+	}
 }
 
 func pairKey(m, t int) string { return strconv.Itoa(m) + "." + strconv.Itoa(t) }
@@ -804,8 +812,10 @@ func (r *caseRun) opFlushMetaFail(store string) {
 // group IsEmpty, stop + close the partition and remove its directory).
 func (r *caseRun) opGC() {
 	had, unacked := map[models.NodeID]bool{}, map[models.NodeID]bool{}
+	prePos := map[models.NodeID]string{}
 	r.n.save()
 	for _, l := range r.leaders {
+		prePos[l] = r.n.posOf(l).String()
 		had[l] = r.n.lanes[l].part != nil
 		if had[l] {
 			p := r.n.posOf(l)
@@ -822,12 +832,33 @@ func (r *caseRun) opGC() {
 	}
 	old := r.cur
 	lostUnacked := false
-	for _, l := range r.leaders {
+	for i, l := range r.leaders {
 		r.use(l)
-		r.c.Op(r.lop(op), r.P())
+		if r.multi() {
+			// the tick visits every log; the model is told lane by lane: the lanes not yet reported
+			// are shown as they were before the tick
+			var parts []string
+			for j, l2 := range r.leaders {
+				ps := prePos[l2]
+				if j <= i {
+					ps = r.n.posOf(l2).String()
+				}
+				parts = append(parts, fmt.Sprintf("L%d{%s}", l2, ps))
+			}
+			r.c.Op(r.lop(op), strings.Join(parts, " "))
+		} else {
+			r.c.Op(r.lop(op), r.P())
+		}
 		gone := had[l] && r.n.lanes[l].part == nil
 		if gone && unacked[l] {
 			lostUnacked = true
+		}
+		if had[l] && unacked[l] && !gone {
+			// the partition object is still there: are its files?
+			if _, e := os.Stat(filepath.Join(walDir(r.n.root, r.famTime, l), "cg")); e != nil {
+				lostUnacked = true
+				r.c.Branch("wal-files-removed-under-live-partition")
+			}
 		}
 		if r.expired && gone {
 			r.c.Branch("wal-directory-removed")
@@ -973,6 +1004,245 @@ func (r *caseRun) opClose(crashFile, crashAt int) {
 	} else if crashed {
 		r.c.Branch("crash-inside-family-close")
 	}
+	r.crashTo(img)
+}
+
+// opFlushIndexFail = an index flush during which the creation of the first index table file fails (a
+// file-system error): PrepareFlush has swapped the index maps, nothing of them is durable, FlushIndex
+// must report the error. whole=false: shard.FlushIndex alone (the caller retries). whole=true: the
+// flush checker's own doFlush (FlushMeta, FlushIndex, family.Flush): the round must stop at the failed
+// index flush - no data file, no acknowledgement.
+func (r *caseRun) opFlushIndexFail(whole bool) {
+	root := r.n.root
+	failed := false
+	tableFail = func(fileName string) error {
+		if strings.HasPrefix(fileName, root) && strings.Contains(fileName, "/index/") &&
+			!strings.Contains(fileName, "/segment/") && !strings.Contains(fileName, "/meta/") {
+			failed = true
+			return fmt.Errorf("injected: cannot create %s", fileName[len(root):])
+		}
+		return nil
+	}
+	before := r.P()
+	frozenNow := append([]int64(nil), r.sh.mem...)
+	var err error
+	var obs []flushObs
+	if whole {
+		obs, _ = r.observeFlush("doFlush", func() error { err = r.n.doFlush(); return nil }, 0, nil, nil)
+	} else {
+		func() {
+			defer func() {
+				if p := recover(); p != nil {
+					r.c.Fail("panic", fmt.Sprintf("flush index with a failing table creation panicked: %v", p))
+					r.broken = true
+				}
+			}()
+			err = r.n.flushIndex()
+		}()
+	}
+	tableFail = nil
+	if r.broken {
+		return
+	}
+	metaStep := func() {
+		r.sh.metric.prepare(r.sh.swapOnEmpty)
+		r.sh.tagv.prepare(r.sh.swapOnEmpty)
+		r.sh.metric.flush()
+		r.sh.tagv.flush()
+		r.c.Op("fmeta", before)
+	}
+	if !failed {
+		if err != nil {
+			r.failHarness("flush index", err)
+			return
+		}
+		// the index had nothing to flush: an ordinary step / round
+		if whole {
+			metaStep()
+		}
+		r.sh.flushIndex()
+		r.c.Op("findex", before)
+		if whole {
+			r.sh.freeze(r.entries)
+			r.c.Op("freeze", before)
+			r.emitCommitAck(obs[0])
+		}
+		return
+	}
+	r.c.Branch("index-flush-failed")
+	if whole {
+		metaStep()
+	}
+	r.sh.indexStep(true)
+	r.c.Op("iprep", before)
+	if !whole {
+		if err == nil {
+			r.tainted = true
+			r.c.Fail(keyAfterIdxErr, "the creation of an index table file failed during shard.FlushIndex, but FlushIndex returned nil: "+
+				"dataFlushChecker.flushShard goes on to flush the families and acknowledge the log on `err == nil`")
+		}
+		return
+	}
+	o := obs[0]
+	if o.mid == nil && o.after == before {
+		return // the round stopped at the failed index flush
+	}
+	// the round went on: report what it did, then show the consequence after a crash
+	for _, q := range frozenNow {
+		r.sh.fate[q] = keyAfterIdxErr
+	}
+	r.sh.freeze(r.entries)
+	for _, q := range frozenNow {
+		r.sh.fate[q] = keyAfterIdxErr
+	}
+	r.c.Op("freeze", before)
+	r.emitCommitAck(o)
+	r.c.Fail(keyAfterIdxErr, fmt.Sprintf("doFlush: the creation of an index table file failed inside shard.FlushIndex, yet the same round flushed the family "+
+		"and moved the log positions from [%s] to [%s]", before, o.after))
+	r.opCrash()
+	r.tainted = true
+}
+
+// opShutdown = the storage node's graceful shutdown (databaseLifecycle.Shutdown: walMgr.Stop,
+// engine.Close -> database.Close -> shard.Close -> segment.Close -> dataFamily.Close, walMgr.Close) on
+// the real node, observed through the table-creation seam and the family's ack callbacks. A crash
+// image is taken before the crashTable-th table file the shutdown creates (crashTable >= 0), or at
+// the crashFile-th committed data file between commit and ack / right after the ack, or after the
+// shutdown. The ops reported to the model are those of the code's order (tie
+// shutdown_is_meta_index_data): fmeta, findex, findex, then Close's data steps up to the image.
+func (r *caseRun) opShutdown(crashTable, crashFile, crashAt int) {
+	img, imgCat := "", ""
+	var imgErr error
+	image := func() {
+		if img == "" {
+			if img, imgErr = r.newRoot(); imgErr == nil {
+				imgErr = copyTree(r.n.root, img)
+			}
+		}
+	}
+	type fileObs struct{ mid, post string }
+	var files []fileObs
+	cur := fileObs{}
+	imgFiles, imgMid := -1, false // data files completed / current file committed when the image was taken
+	root := r.n.root
+	nTables := 0
+	tableHook = func(fileName string) {
+		if !strings.HasPrefix(fileName, root) {
+			return
+		}
+		cat := "index"
+		switch {
+		case strings.Contains(fileName, "/segment/"):
+			cat = "data"
+		case strings.Contains(fileName, "/meta/"):
+			cat = "meta"
+		}
+		if nTables == crashTable && img == "" {
+			image()
+			imgCat, imgFiles = cat, len(files)
+		}
+		nTables++
+	}
+	hadFrozen := r.frozenPending
+	hadMutable := len(r.sh.mem) > 0
+	before := r.P()
+	r.n.midFlush = func() {
+		cur.mid = r.P()
+		if crashTable < 0 && crashAt == crashMid && len(files) == crashFile && img == "" {
+			image()
+			imgFiles, imgMid = len(files), true
+		}
+	}
+	r.n.postAck = func() {
+		cur.post = r.P()
+		files = append(files, cur)
+		cur = fileObs{}
+		if crashTable < 0 && crashAt == crashAck && len(files)-1 == crashFile && img == "" {
+			image()
+			imgFiles = len(files)
+		}
+	}
+	r.n.noFamLock = true // the callbacks run inside dataFamily.Close, which holds the family mutex
+	ok := r.guard("shutdown", r.n.shutdownEngine)
+	r.n.noFamLock = false
+	r.n.midFlush, r.n.postAck = nil, nil
+	tableHook = nil
+	if !ok {
+		return
+	}
+	r.c.Branch("graceful-shutdown")
+	if img == "" {
+		image()
+		imgFiles = len(files)
+	} else {
+		r.c.Branch("crash-inside-shutdown")
+	}
+	r.n.finishShutdown()
+	if imgErr != nil {
+		r.failHarness("crash image", imgErr)
+		return
+	}
+	if imgCat == "meta" || imgCat == "index" {
+		// inside a dictionary flush of the shutdown: as for opFlushInnerCrash the name-level model is not
+		// told; positions, files, replay and the by-name lookups are checked
+		r.c.Branch("crash-inside-shutdown-before-" + imgCat + "-table")
+		r.terminal = true
+		r.frozenPending = false
+		r.n = nil
+		r.sh.crash()
+		r.c.Op("crash", "down")
+		r.opRecover(img, true)
+		return
+	}
+	// the dictionaries were flushed before the first data file (code order)
+	r.sh.metric.prepare(r.sh.swapOnEmpty)
+	r.sh.tagv.prepare(r.sh.swapOnEmpty)
+	r.sh.metric.flush()
+	r.sh.tagv.flush()
+	r.c.Op("fmeta", before)
+	r.sh.flushIndex()
+	r.c.Op("findex", before)
+	r.sh.flushIndex()
+	r.c.Op("findex", before)
+	k := 0
+	start := before
+	emit := func(withFreeze bool) bool {
+		// one memory database of dataFamily.Close: [freeze] dcommit ack; true = the image was taken here
+		atPre := imgCat == "data" && imgFiles == k && !imgMid
+		if withFreeze {
+			r.sh.freeze(r.entries)
+			r.c.Op("freeze", start)
+		}
+		if atPre {
+			return true
+		}
+		if k >= len(files) && cur.mid == "" {
+			// no sequence for any leader: no callbacks, the positions did not move
+			r.c.Op("dcommit", start)
+			r.c.Op("ack", start)
+			return false
+		}
+		o := cur
+		if k < len(files) {
+			o = files[k]
+		}
+		r.c.Op("dcommit", o.mid)
+		if imgMid && imgFiles == k {
+			return true
+		}
+		r.c.Op("ack", o.post)
+		start = o.post
+		k++
+		return imgCat == "" && imgFiles == k && crashAt == crashAck && crashTable < 0 && crashFile == k-1
+	}
+	crashed := false
+	if hadFrozen {
+		crashed = emit(false)
+	}
+	if !crashed && hadMutable {
+		emit(true)
+	}
+	r.frozenPending = false
 	r.crashTo(img)
 }
 
@@ -1311,6 +1581,11 @@ func (r *caseRun) opRecover(img string, partial bool) {
 			r.c.Fail(keyWedge, fmt.Sprintf("entry %d (%s host=%s): rows are in a data file and the log is acknowledged up to %d, "+
 				"but its names no longer resolve: an earlier flush round prepared an empty dictionary, after which PrepareFlush never swaps again",
 				s, metricName(r.entries[s].Metric), tagValue(r.entries[s].Tagv), p.ack))
+		case keyAfterIdxErr:
+			r.tainted = true
+			r.c.Fail(keyAfterIdxErr, fmt.Sprintf("entry %d (%s host=%s): rows are in a data file and the log is acknowledged up to %d, but the series is not found by "+
+				"metric name and tag after recovery: the round's index flush had failed and the round flushed the data anyway",
+				s, metricName(r.entries[s].Metric), tagValue(r.entries[s].Tagv), p.ack))
 		default:
 			r.c.Fail(keyUnresolved, fmt.Sprintf("entry %d (%s host=%s): rows are in a data file but its names do not resolve after recovery",
 				s, metricName(r.entries[s].Metric), tagValue(r.entries[s].Tagv)))
@@ -1391,6 +1666,14 @@ func (r *caseRun) finish() {
 					named += int(row[int(e.Slot)])
 				}
 			}
+		}
+		if f := r.sh.fate[e.Slot]; (err != nil || named == 0) && (f == keyWindow || f == keyWedge) && r.terminal {
+			// the image was taken inside a later dictionary flush (recoverp: clause 4 is checked here): the
+			// rows had been frozen, flushed and acknowledged while a name of theirs was only in memory
+			r.c.Fail(f, fmt.Sprintf("entry %d (%s host=%s): rows are in a data file and the log is acknowledged, but its names do not resolve after "+
+				"recovery and replay: they were not durable when the rows were frozen and the process died before a later dictionary flush completed",
+				e.Seq, metricName(e.Metric), tagValue(e.Tagv)))
+			continue
 		}
 		if err != nil || named == 0 {
 			r.c.Fail(keyNoName, fmt.Sprintf("entry %d (%s host=%s) is stored (x%d) but a lookup by metric name and tag does not return it after recovery and replay: %v",
@@ -1587,6 +1870,91 @@ func (r *caseRun) leaderAndFollowerLogs() {
 	r.opFlushData(crashMid, false)
 }
 
+// expiredTwoLogs: a family hour past its write window with the logs of two leaders. Both are flushed
+// and acknowledged; a late entry reaches log `late` and is applied but not flushed; one tick of the
+// WAL garbage collector (the other log is expired and fully acknowledged: ITS directory may go);
+// crash. The late entry must still be replayable.
+func (r *caseRun) expiredTwoLogs(late models.NodeID, n int) {
+	for _, l := range r.leaders {
+		r.use(l)
+		for i := 0; i < n; i++ {
+			r.opAppend(i%3, int(l)%2)
+		}
+	}
+	r.applyAllLanes()
+	r.opFlushMeta()
+	r.opFlushIndex()
+	r.opFlushData(noCrash, false)
+	if r.stop() {
+		return
+	}
+	r.use(late)
+	r.opAppend(0, 0)
+	r.applyAll()
+	r.opGC()
+	if r.stop() {
+		return
+	}
+	r.opCrash()
+	if r.stop() {
+		return
+	}
+	r.applyAllLanes()
+	r.opFlushMeta()
+	r.opFlushIndex()
+	r.opFlushData(noCrash, false)
+	if r.stop() {
+		return
+	}
+	r.opGC()
+	if r.stop() {
+		return
+	}
+	r.opCrash()
+}
+
+// indexFlushFails: a series that is new in this round; the table file of the index store cannot be
+// created. whole: inside the flush checker's doFlush (the round must stop there), crash, replay.
+// Otherwise FlushIndex alone, the retry, the data flush, crash.
+func (r *caseRun) indexFlushFails(whole bool) {
+	r.opAppend(0, 0)
+	r.opApply()
+	if whole {
+		r.opFlushIndexFail(true)
+		if r.stop() {
+			return
+		}
+		r.opCrash()
+		return
+	}
+	r.opFlushMeta()
+	r.opFlushIndexFail(false)
+	if r.stop() {
+		return
+	}
+	r.opFlushIndex()
+	r.opFlushData(noCrash, false)
+	r.opCrash()
+}
+
+// shutdownCase: two entries with new names in memory only (optionally a failed data flush before the
+// second), graceful shutdown with a crash image at the chosen point, restart.
+func (r *caseRun) shutdownCase(failedFlush bool, crashTable, crashFile, crashAt int) {
+	r.opAppend(0, 0)
+	r.opApply()
+	if failedFlush {
+		r.opFlushMeta()
+		r.opFlushIndex()
+		r.opFlushDataFail()
+		if r.stop() {
+			return
+		}
+	}
+	r.opAppend(1, 1)
+	r.opApply()
+	r.opShutdown(crashTable, crashFile, crashAt)
+}
+
 // witnessGap: Neg.gapTrace on the real node — a whole family.Flush between GetOrCreateMemoryDatabase
 // and AcquireWrite of entry 1's WriteRows.
 func (r *caseRun) witnessGap() {
@@ -1762,12 +2130,24 @@ func (r *caseRun) randomCase(disciplined bool) {
 			// shutdown with the immutable memory database still pending, in database.Close's order:
 			// flushMeta, FlushIndex of the shard, then shard.Close -> segment.Close -> dataFamily.Close
 			// (a lone Close would persist rows whose names no flush has seen; lindb never does that)
+			cf, ca := rng.Intn(2), []int{noCrash, crashMid, crashAck}[rng.Intn(3)]
+			if !r.expired && rng.Intn(2) == 0 {
+				// lindb's own shutdown
+				ct := -1
+				if rng.Intn(2) == 0 {
+					ct = rng.Intn(10)
+				}
+				r.opShutdown(ct, cf, ca)
+				if disciplined {
+					known = nil
+				}
+				continue
+			}
 			r.opFlushMeta()
 			r.opFlushIndex()
 			if r.stop() {
 				break
 			}
-			cf, ca := rng.Intn(2), []int{noCrash, crashMid, crashAck}[rng.Intn(3)]
 			r.opClose(cf, ca)
 			if disciplined {
 				known = nil
@@ -1788,8 +2168,23 @@ func (r *caseRun) randomCase(disciplined bool) {
 			r.applyAll()
 		case k < 55:
 			r.opGC()
-		case k < 62:
+		case k < 59:
 			maybeCrash(100)
+		case k < 62:
+			if r.multi() || r.expired || crashes >= 3 {
+				maybeCrash(100)
+				break
+			}
+			// graceful shutdown (the real engine close path) with a crash image somewhere inside, or after it
+			crashes++
+			ct := -1
+			if rng.Intn(2) == 0 {
+				ct = rng.Intn(10)
+			}
+			r.opShutdown(ct, rng.Intn(2), []int{noCrash, crashMid, crashAck}[rng.Intn(3)])
+			if disciplined {
+				known = nil
+			}
 		case k < 70 && !disciplined:
 			// a lone flush step outside a round (still never data before meta/index of the same round)
 			if rng.Intn(2) == 0 {
@@ -1840,6 +2235,13 @@ func (r *caseRun) randomCase(disciplined bool) {
 			}
 			if rng.Intn(3) == 0 {
 				// the flush checker's own doFlush: the whole round in one call
+				if !r.multi() && !r.frozenPending && rng.Intn(8) == 0 {
+					// ... in which the index table file cannot be created: the round stops there; the next one retries
+					r.opFlushIndexFail(true)
+					if r.stop() {
+						break
+					}
+				}
 				if crashAt != noCrash {
 					crashes++
 					if disciplined {
@@ -1877,6 +2279,13 @@ func (r *caseRun) randomCase(disciplined bool) {
 			if inner == innerIndex && r.opFlushInnerCrash(innerIndex) {
 				continue
 			} else if inner != innerIndex {
+				if rng.Intn(14) == 0 {
+					// a file-system error in this round's index flush, retried at once
+					r.opFlushIndexFail(false)
+					if r.stop() {
+						break
+					}
+				}
 				r.opFlushIndex()
 			}
 			if maybeCrash(8) {
@@ -1924,6 +2333,9 @@ func (r *caseRun) randomCase(disciplined bool) {
 
 // ---------------------------------------------------------------- Run
 
+// lastScripted: cases 0..lastScripted are fixed histories
+const lastScripted = 25
+
 func (area) Run(c *core.Ctx) error {
 	repo := os.Getenv("VERIF_REPO")
 	if repo == "" {
@@ -1950,13 +2362,17 @@ func (area) Run(c *core.Ctx) error {
 		if i == 18 {
 			r.leaders = []models.NodeID{1, 2}
 		}
-		if i > 18 && i%16 == 9 {
+		if i > lastScripted && i%16 == 9 {
 			r.leaders = []models.NodeID{1, 2}
 		}
-		if i > 18 && i%16 == 1 {
+		if i > lastScripted && i%16 == 1 {
 			r.leaders = []models.NodeID{2}
 		}
-		if i == 5 || (i > 18 && i%8 == 6) {
+		if i == 19 || (i > lastScripted && i%16 == 14) {
+			// two leaders' logs in an expired family hour
+			r.leaders = []models.NodeID{1, 2}
+		}
+		if i == 5 || i == 19 || (i > lastScripted && i%8 == 6) {
 			// a family whose hour ended 5 hours ago: with ahead = 1h it is past its write window
 			r.expired, r.famTime = true, hour-6*3600000
 		}
@@ -1981,6 +2397,13 @@ func (area) Run(c *core.Ctx) error {
 			case i == 4:
 				c.Branch("flush-inside-replica")
 				r.flushInsideReplica()
+			case r.expired && r.multi():
+				c.Branch("expired-family-two-logs")
+				if i == 19 {
+					r.expiredTwoLogs(2, 1)
+				} else {
+					r.expiredTwoLogs(r.leaders[r.rng.Intn(2)], 1+r.rng.Intn(3))
+				}
 			case r.expired:
 				c.Branch("expired-family")
 				r.expiredFamily()
@@ -2005,6 +2428,13 @@ func (area) Run(c *core.Ctx) error {
 			case i == 18:
 				c.Branch("leader-and-follower-logs")
 				r.leaderAndFollowerLogs()
+			case i == 20 || i == 21:
+				c.Branch("index-flush-fails-scripted")
+				r.indexFlushFails(i == 20)
+			case i >= 22 && i <= 25:
+				c.Branch("shutdown-scripted")
+				x := [][4]int{{0, -1, 0, crashMid}, {0, -1, 0, crashAck}, {1, -1, 1, crashMid}, {0, -1, 0, noCrash}}[i-22]
+				r.shutdownCase(x[0] == 1, x[1], x[2], x[3])
 			case i%4 == 3:
 				c.Branch("wild")
 				r.randomCase(false)
